@@ -57,7 +57,15 @@ type poster interface {
 	Close() error
 }
 
-func runCfgSZX(transport string, szx int, body int) (line string) {
+// oneWayWriter is the less-travelled entrance of the block-wise layer: Conn.WriteMessage -> BlockWise.WriteMessage (no Do)
+type oneWayWriter interface {
+	WriteMessage(req *pool.Message) error
+	AcquireMessage(ctx context.Context) *pool.Message
+}
+
+func runCfgSZX(transport string, szx int, body int) (line string) { return runCfgSZXVia(transport, szx, body, false) }
+
+func runCfgSZXVia(transport string, szx int, body int, oneWay bool) (line string) {
 	defer func() {
 		if r := recover(); r != nil {
 			line = fmt.Sprintf("panic %v", r)
@@ -135,6 +143,42 @@ func runCfgSZX(transport string, szx int, body int) (line string) {
 	}
 	ctx, cancel := context.WithTimeout(context.Background(), 3*time.Second)
 	defer cancel()
+	if oneWay {
+		ww, ok := cc.(oneWayWriter)
+		if !ok {
+			return "bad-op"
+		}
+		req := ww.AcquireMessage(ctx)
+		defer cc.ReleaseMessage(req)
+		if err := req.SetupPost("/up", message.Token{0xc1, 0x9e, byte(szx)}, message.AppOctets, bytes.NewReader(payload)); err != nil {
+			return "setup-failed"
+		}
+		werr := ww.WriteMessage(req)
+		// whatever the layer puts on the wire is on its way now: give the server up to a second to assemble it
+		dl := time.Now().Add(time.Second)
+		if werr != nil {
+			dl = time.Now().Add(300 * time.Millisecond)
+		}
+		for time.Now().Before(dl) {
+			mu.Lock()
+			d := delivered
+			mu.Unlock()
+			if d >= 0 {
+				break
+			}
+			time.Sleep(10 * time.Millisecond)
+		}
+		mu.Lock()
+		d := delivered
+		mu.Unlock()
+		if werr != nil {
+			if d >= 0 {
+				return fmt.Sprintf("err-but-delivered %d", d)
+			}
+			return "err"
+		}
+		return fmt.Sprintf("ok delivered=%d", d)
+	}
 	resp, err := cc.Post(ctx, "/up", message.AppOctets, bytes.NewReader(payload))
 	mu.Lock()
 	d := delivered
@@ -358,6 +402,10 @@ func TestC19Glue(t *testing.T) {
 			szx, _ := strconv.Atoi(f[2])
 			body, _ := strconv.Atoi(f[3])
 			fmt.Fprintln(w, runCfgSZX(f[1], szx, body))
+		case len(f) == 4 && f[0] == "cfgszxw":
+			szx, _ := strconv.Atoi(f[2])
+			body, _ := strconv.Atoi(f[3])
+			fmt.Fprintln(w, runCfgSZXVia(f[1], szx, body, true))
 		case len(f) == 3 && f[0] == "srvszx":
 			sz, _ := strconv.Atoi(f[2])
 			fmt.Fprintln(w, runSrvSZX(f[1], sz))
